@@ -239,8 +239,8 @@ class CfgWorld:
 class C20(Check):
     prop = "C20"
     level = "exploration"
-    quick_runs = 12000
-    thorough_runs = 300000
+    quick_runs = 30000
+    thorough_runs = 800000
     chunk = 100
     rule = (
         "seeded interleavings of application starts (real load_config_toml), upgrades (defaults edited: keys added/removed, "
@@ -329,7 +329,7 @@ class C20(Check):
                 raise HarnessError("file on disk is not valid TOML: %r\n%s" % (e, before))
             want = overlay(dref, uref)
             if exc is not None:
-                raise Violation("overlay", "load_config_toml raised %r for defaults %s and file %s" % (exc, short(dtext, 200), short(before.decode(), 200)), {"op": op})
+                raise Violation("overlay", "load_config_toml raised %r for defaults %s and file %s" % (exc, short(dtext, 200), short(before.decode(), 200)), {"op": op, "kind": "raised " + repr(exc)[:70]})
             got = plain(out["ret"])
             if canon(got) != canon(want):
                 raise Violation("first_run_inert" if world.first_run_defaults == dtext else "overlay", "effective config %s differs from defaults overlaid by the file %s (defaults %s; file %s)" % (short(got, 220), short(want, 220), short(dref, 160), short(uref, 160)), {"op": op})
